@@ -171,7 +171,7 @@ def eval_type(args):
                     fail('C16', h, f'to_string changed {key}: {b[key]} -> {a[key]}')
                     break
         # ---- C07 / C12 on the last add
-        if last[0] in ('add', 'addf') and all(o == 'ok' for o in outs[:-1]):
+        if last[0] in ('add', 'addf'):     # failed attempts earlier in the history are allowed: they must have been no-ops
             e0, _, _, _ = hist.run(lib, name, prev)
             before = hist.views(e0)[0]
             if lo == 'ok':
@@ -218,7 +218,7 @@ def eval_type(args):
                     if v != ('ok', ua):
                         fail('C12', h, f'unique arrangement {list(ua)} expected, to_string gives {v}')
         # ---- C11 removal
-        if last[0] == 'rm' and lo == 'ok' and all(o == 'ok' for o in outs):
+        if last[0] == 'rm' and lo == 'ok':
             counts['C11'] += 1
             remaining = hist.present_model(h, outs)
             twin = tuple(('add', a) for a in remaining)
